@@ -243,7 +243,7 @@ theorem dec_binary (x : Ext) (cfg : DecCfg) (b bs r : Bytes) (fuel d : Nat)
   simp [hd', ownedOnlyTags, rdU_be32 b.length (b ++ r) h32, hm2]
 
 theorem dec_bits (x : Ext) (cfg : DecCfg) (b bs r : Bytes) (n fuel d : Nat)
-    (h : encBits b n = .ok bs) (hn : 1 ≤ n ∧ n ≤ 8) (he : b.isEmpty = false ∨ n = 8)
+    (h : encBits b n = .ok bs) (hn : 1 ≤ n ∧ n ≤ 8) (he : b = [] → n = 8)
     (hl : b.length ≤ MAX_BINARY_SIZE) (hd : d ≤ MAX_NESTING_DEPTH) :
     dec x cfg (fuel + 1) d (bs ++ r) = .ok (.bits b n, r) := by
   have hd' : ¬ d > MAX_NESTING_DEPTH := by omega
@@ -257,33 +257,45 @@ theorem dec_bits (x : Ext) (cfg : DecCfg) (b bs r : Bytes) (n fuel d : Nat)
   have hm2 : ¬ b.length > MAX_BINARY_SIZE := by omega
   have hn8 : n < 256 := by omega
   have hz : ¬ (n = 0 ∨ 8 < n) := by omega
-  have hz2 : ¬ (b.length = 0 ∧ ¬ n = 8) := by
-    intro ⟨h0, h8⟩
-    rcases he with he | he
-    · simp [List.isEmpty_iff] at he; simp_all
-    · exact h8 he
-  simp [hd', ownedOnlyTags, rdU_be32 b.length _ h32, hm2, rdU_byte n (b ++ r) hn8, hz, hz2]
+  simp [hd', ownedOnlyTags, rdU_be32 b.length _ h32, hm2, rdU_byte n (b ++ r) hn8, hz]
+  exact he
+
+theorem decBig_ok (k : Nat) (neg : Bool) (dg r : Bytes) (hl : dg.length < 256 ^ k) :
+    decBig k (beN k dg.length ++ (if neg then (1 : UInt8) else 0) :: (dg ++ r)) = .ok (.big neg dg, r) := by
+  cases neg
+  · have e0 : rdU 1 ((0 : UInt8) :: (dg ++ r)) = .ok (0, dg ++ r) := rdU_byte 0 _ (by omega)
+    simp only [Bool.false_eq_true, ↓reduceIte]
+    rw [decBig, rdU_beN k dg.length _ hl]
+    simp only [e0, takeE_append]
+    rfl
+  · have e1 : rdU 1 ((1 : UInt8) :: (dg ++ r)) = .ok (1, dg ++ r) := rdU_byte 1 _ (by omega)
+    simp only [↓reduceIte]
+    rw [decBig, rdU_beN k dg.length _ hl]
+    simp only [e1, takeE_append]
+    rfl
 
 theorem dec_big (x : Ext) (cfg : DecCfg) (neg : Bool) (dg r : Bytes) (fuel d : Nat)
     (hl : dg.length < 4294967296) (hd : d ≤ MAX_NESTING_DEPTH) :
     dec x cfg (fuel + 1) d (encBig neg dg ++ r) = .ok (.big neg dg, r) := by
   have hd' : ¬ d > MAX_NESTING_DEPTH := by omega
+  have e111 : (111 : UInt8).toNat = 111 := by decide
+  have e110 : (110 : UInt8).toNat = 110 := by decide
   unfold encBig
   by_cases h255 : dg.length ≤ 255
-  · simp only [h255, ↓reduceIte, List.cons_append, List.append_assoc]
+  · have h256 : dg.length < 256 ^ 1 := by omega
+    simp only [h255, ↓reduceIte, List.cons_append, List.append_assoc]
     rw [dec.eq_3]
-    cases neg
-    · have e0 : rdU 1 ((0 : UInt8) :: (dg ++ r)) = .ok (0, dg ++ r) := rdU_byte 0 _ (by omega)
-      simp [hd', ownedOnlyTags, decBig, rdU_be8 dg.length _ (by omega : dg.length < 256), e0]
-    · have e1 : rdU 1 ((1 : UInt8) :: (dg ++ r)) = .ok (1, dg ++ r) := rdU_byte 1 _ (by omega)
-      simp [hd', ownedOnlyTags, decBig, rdU_be8 dg.length _ (by omega : dg.length < 256), e1]
-  · simp only [h255, ↓reduceIte, List.cons_append, List.append_assoc]
+    simp only [hd', ↓reduceIte, e110]
+    have hb : (cfg.borrowed && ownedOnlyTags.contains 110) = false := by simp [ownedOnlyTags]
+    simp only [hb, Bool.false_eq_true, ↓reduceIte]
+    exact decBig_ok 1 neg dg r h256
+  · have h32 : dg.length < 256 ^ 4 := by simpa using hl
+    simp only [h255, ↓reduceIte, List.cons_append, List.append_assoc]
     rw [dec.eq_3]
-    cases neg
-    · have e0 : rdU 1 ((0 : UInt8) :: (dg ++ r)) = .ok (0, dg ++ r) := rdU_byte 0 _ (by omega)
-      simp [hd', ownedOnlyTags, decBig, rdU_be32 dg.length _ hl, e0]
-    · have e1 : rdU 1 ((1 : UInt8) :: (dg ++ r)) = .ok (1, dg ++ r) := rdU_byte 1 _ (by omega)
-      simp [hd', ownedOnlyTags, decBig, rdU_be32 dg.length _ hl, e1]
+    simp only [hd', ↓reduceIte, e111]
+    have hb : (cfg.borrowed && ownedOnlyTags.contains 111) = false := by simp [ownedOnlyTags]
+    simp only [hb, Bool.false_eq_true, ↓reduceIte]
+    exact decBig_ok 4 neg dg r h32
 
 theorem dec_nil (x : Ext) (cfg : DecCfg) (r : Bytes) (fuel d : Nat) (hd : d ≤ MAX_NESTING_DEPTH) :
     dec x cfg (fuel + 1) d (106 :: r) = .ok (.nil, r) := by
